@@ -4,8 +4,8 @@
    Everything is generic in the ordered field F (so it holds for Qc, which is executed, and for R) and axiom-free. *)
 From Coq Require Import Arith Bool QArith Qcanon.
 From QV.Core Require Import OF QcOF Sums Mat Cplx Psd C04_ProjCert.
-From QV.Model Require Import QObj HermEmbed C04_Proj C04_Cert C04_Heap.
-From QV.Proofs Require Import C04_Proj C04_ObjVar C04_Herm C04_Heap.
+From QV.Model Require Import QObj HermEmbed C04_Proj C04_Cert C04_Heap C04_EigClip.
+From QV.Proofs Require Import C04_Proj C04_ObjVar C04_Herm C04_Heap C04_EigClip.
 
 (* "P is the nearest-point projection onto the set A, w.r.t. the Euclidean norm of the first L entries":
    lands in A; displacement orthogonal to the direction space of A; Pythagoras; nearest; the ONLY nearest point;
@@ -148,6 +148,26 @@ Theorem C04_herm_proj_exact_unique : forall (F : OF) n (X Y : cmat F), cert_chec
 Proof. exact herm_proj_exact. Qed.
 Print Assumptions C04_herm_proj_exact_unique.
 
+(* the ALGORITHM of the inequality projections after np.linalg.eigh (Model/C04_EigClip.v: diag[diag < 0] = 0;
+   eigenvecs @ diag @ eigenvecs.T.conjugate()), complex matrices of every size: GIVEN eigh's contract (the columns of U are
+   orthonormal; the input is U diag(w) U^dagger) the exact certificate holds ... *)
+Theorem C04_eig_clip_cert : forall (F : OF) n (U : cmat F) (w : nat -> F), unitary n U ->
+  cert_check n (eig_clip n U w) (rebuild n U w) (c0 F) (c0 F) = true.
+Proof. exact eig_clip_cert. Qed.
+Print Assumptions C04_eig_clip_cert.
+
+(* ... hence the returned operator is Hermitian PSD, nearest to the input among all Hermitian PSD matrices, and the only
+   nearest one.  (eigh itself stays an oracle: its contract is re-checked numerically per run, sub-check eigclip; the
+   per-output certificate of sub-check ineq does not depend on it.) *)
+Theorem C04_eig_clip_nearest : forall (F : OF) n (U : cmat F) (w : nat -> F), unitary n U ->
+  hermitian n (rebuild n U w) /\ hermitian n (eig_clip n U w) /\ herm_PSD n (eig_clip n U w) /\
+  forall Z, hermitian n Z -> herm_PSD n Z ->
+    kle F (hdist2 n (rebuild n U w) (eig_clip n U w)) (hdist2 n (rebuild n U w) Z) /\
+    (kle F (hdist2 n (rebuild n U w) Z) (hdist2 n (rebuild n U w) (eig_clip n U w)) ->
+     forall i j, (i < n)%nat -> (j < n)%nat -> Z i j = eig_clip n U w i j).
+Proof. exact eig_clip_nearest. Qed.
+Print Assumptions C04_eig_clip_nearest.
+
 (* per-element (Povm) / per-outcome (MProcess) projections are nearest for the product set: squared distances add *)
 Theorem C04_product_nearest : forall (F : OF) m (dyx dyz : nat -> F),
   (forall x, (x < m)%nat -> kle F (dyx x) (dyz x)) -> kle F (sumn m dyx) (sumn m dyz).
@@ -155,31 +175,44 @@ Proof. exact product_nearest. Qed.
 Print Assumptions C04_product_nearest.
 
 (* ------------------------------------------------------------------ "never modify the argument" (array-heap model) *)
-(* MProcess.calc_proj_eq_constraint_with_var as coded, on_para_eq_constraint = False: the hss are VIEWS of var and
-   `hs[0] -= vec / len(hss)` writes through them.  FULL statement (false of the faithful model):
+(* Model/C04_Heap.v h_proj_eq_with_var = MProcess.calc_proj_eq_constraint_with_var WITH repair
+   fixes/mprocess-proj-eq-var-mutates-argument.diff (hss = copy.deepcopy(convert_var_to_hss(...))); this is the model the
+   harness executes (op c04.mp_heap) and compares with the implementation: returned array AND post-call contents of var.
+   Pure under both flags: every heap, every var (any buffer / offset), all m, n. *)
+Theorem C04_mprocess_eq_proj_with_var_pure : forall (F : OF) flag fresh1 fresh2 fresh3 m n (h : heap F) var i,
+  fresh1 <> buf var -> fresh2 <> buf var -> fresh3 <> buf var ->
+  fst (h_proj_eq_with_var F flag fresh1 fresh2 fresh3 m n h var) (buf var) i = h (buf var) i.
+Proof. exact proj_eq_with_var_pure. Qed.
+Print Assumptions C04_mprocess_eq_proj_with_var_pure.
+
+(* ... and the array it returns holds exactly the functional model of the variable-level projection (the one
+   C04_mprocess_obj_var / C04_mprocess_eq_proj_nearest talk about): all m, n > 0, both flags, every heap *)
+Theorem C04_mprocess_eq_proj_with_var_value : forall (F : OF) flag fresh1 fresh2 fresh3 m n (h : heap F) var k,
+  (0 < m)%nat -> (0 < n)%nat -> (k < mp_var_len flag m n)%nat ->
+  let '(h', out) := h_proj_eq_with_var F flag fresh1 fresh2 fresh3 m n h var in
+  rd F h' out k = mp_proj_eq_var F flag m n (rd F h var) k.
+Proof. exact proj_eq_with_var_value. Qed.
+Print Assumptions C04_mprocess_eq_proj_with_var_value.
+
+(* The code AS IT WAS BEFORE that repair (h_proj_eq_with_var_prefix: no copy; with on_para_eq_constraint = False the hss are
+   VIEWS of var and `hs[0] -= vec / len(hss)` writes through them).  FULL statement (false of that model):
      forall m n fresh1 fresh2 h var i, fresh1 <> buf var -> fresh2 <> buf var ->
-       fst (h_proj_eq_with_var F false fresh1 fresh2 m n h var) (buf var) i = h (buf var) i
-   Witness: 1 qubit (n = 4), m = 2, var = zeros(32): var[0] becomes 1/2 (replayed on the real code: findings/C04-1.md) *)
-Theorem C04_mprocess_eq_proj_with_var_mutates_refuted :
+       fst (h_proj_eq_with_var_prefix F false fresh1 fresh2 m n h var) (buf var) i = h (buf var) i
+   Witness: 1 qubit (n = 4), m = 2, var = zeros(32): var[0] becomes 1/2 (replayed on the unrepaired code: findings/C04-1.md,
+   corpus/C04/c04-1-mprocess-zeros.json) *)
+Theorem C04_mprocess_eq_proj_with_var_prefix_mutates_refuted :
   exists (m n fresh1 fresh2 : nat) (h : heap Qc_OF) (var : aref) (i : nat),
     fresh1 <> buf var /\ fresh2 <> buf var /\
-    fst (h_proj_eq_with_var Qc_OF false fresh1 fresh2 m n h var) (buf var) i <> h (buf var) i.
-Proof. exact proj_eq_with_var_false_mutates. Qed.
-Print Assumptions C04_mprocess_eq_proj_with_var_mutates_refuted.
+    fst (h_proj_eq_with_var_prefix Qc_OF false fresh1 fresh2 m n h var) (buf var) i <> h (buf var) i.
+Proof. exact proj_eq_with_var_prefix_false_mutates. Qed.
+Print Assumptions C04_mprocess_eq_proj_with_var_prefix_mutates_refuted.
 
-(* on_para_eq_constraint = True: the argument is untouched, all m, n, heaps *)
-Theorem C04_mprocess_eq_proj_with_var_true_pure : forall (F : OF) fresh1 fresh2 m n (h : heap F) var i,
+(* before the repair, on_para_eq_constraint = True was already pure *)
+Theorem C04_mprocess_eq_proj_with_var_prefix_true_pure : forall (F : OF) fresh1 fresh2 m n (h : heap F) var i,
   fresh1 <> buf var -> fresh2 <> buf var ->
-  fst (h_proj_eq_with_var F true fresh1 fresh2 m n h var) (buf var) i = h (buf var) i.
-Proof. exact proj_eq_with_var_true_pure. Qed.
-Print Assumptions C04_mprocess_eq_proj_with_var_true_pure.
-
-(* with the fix proposed in findings/C04-1.md (deep copy of the converted hss) the function is pure under both flags *)
-Theorem C04_mprocess_eq_proj_with_var_fixed_pure : forall (F : OF) flag fresh1 fresh2 fresh3 m n (h : heap F) var i,
-  fresh1 <> buf var -> fresh2 <> buf var -> fresh3 <> buf var ->
-  fst (h_proj_eq_with_var_fixed F flag fresh1 fresh2 fresh3 m n h var) (buf var) i = h (buf var) i.
-Proof. exact proj_eq_with_var_fixed_pure. Qed.
-Print Assumptions C04_mprocess_eq_proj_with_var_fixed_pure.
+  fst (h_proj_eq_with_var_prefix F true fresh1 fresh2 m n h var) (buf var) i = h (buf var) i.
+Proof. exact proj_eq_with_var_prefix_true_pure. Qed.
+Print Assumptions C04_mprocess_eq_proj_with_var_prefix_true_pure.
 
 (* ------------------------------------------------------------------ non-vacuity *)
 (* a genuinely complex Hermitian instance over Qc:  Y = [[1, 2i], [-2i, 1]]  (eigenvalues 3, -1),
@@ -194,6 +227,19 @@ Proof. split; vm_compute; reflexivity. Qed.
 (* the wrong answer "transpose" (a missing conjugate) is rejected *)
 Example C04_example_cert_rejects : @cert_check Qc_OF 2 (fun i j => ex_X j i) ex_Y 0%Qc 0%Qc = false.
 Proof. vm_compute. reflexivity. Qed.
+(* eigh's contract is satisfiable by a genuinely complex U: the exact 3-4-5 unitary G = [[3/5, 4i/5], [4i/5, 3/5]], w = (3, -1);
+   the rebuild WITHOUT the conjugate (U diag U^T, a characteristic slip) is not even Hermitian and is rejected *)
+Definition ex_G : cmat Qc_OF := fun i j => match i, j with
+  | 0%nat, 0%nat => (Q2Qc (3 # 5), Q2Qc 0) | 0%nat, 1%nat => (Q2Qc 0, Q2Qc (4 # 5))
+  | 1%nat, 0%nat => (Q2Qc 0, Q2Qc (4 # 5)) | 1%nat, 1%nat => (Q2Qc (3 # 5), Q2Qc 0) | _, _ => (Q2Qc 0, Q2Qc 0) end.
+Definition ex_w : nat -> Qc := fun k => match k with 0%nat => Q2Qc 3 | _ => Q2Qc (-1) end.
+Example C04_example_unitary : unitary 2 ex_G.
+Proof. intros i j Hi Hj. destruct i as [|[|i]]; [| |exfalso; inversion Hi as [|? H1]; inversion H1 as [|? H2]; inversion H2];
+  (destruct j as [|[|j]]; [| |exfalso; inversion Hj as [|? H1]; inversion H1 as [|? H2]; inversion H2]); apply cplx_eq; apply Qc_is_canon; vm_compute; reflexivity. Qed.
+Example C04_example_eig_clip :
+  @cert_check Qc_OF 2 (@eig_clip Qc_OF 2 ex_G ex_w) (@rebuild Qc_OF 2 ex_G ex_w) 0%Qc 0%Qc = true /\
+  @cert_check Qc_OF 2 (mmul 2 (mmul 2 ex_G (@cdiag Qc_OF (fun k => @clip0 Qc_OF (ex_w k)))) (mT ex_G)) (@rebuild Qc_OF 2 ex_G ex_w) 0%Qc 0%Qc = false.
+Proof. split; vm_compute; reflexivity. Qed.
 (* equality projections, d = 4 (sd = 2 exactly), Povm with m = 3: an infeasible input is moved onto the constraint set *)
 Definition ex_s : @vec Qc_OF := fun k => Q2Qc (Z.of_nat (k * k + 1) # 3).
 Example C04_example_povm :
@@ -202,9 +248,15 @@ Example C04_example_povm :
   Qc_eq_bool (sumn 3 (fun x => P (x * 16 + 0)%nat)) (Q2Qc 2) && Qc_eq_bool (sumn 3 (fun x => P (x * 16 + 5)%nat)) (Q2Qc 0) &&
   negb (Qc_eq_bool (P 17%nat) (ex_s 17%nat)) = true.
 Proof. vm_compute. reflexivity. Qed.
-(* the mutation witness, value by value: var = zeros(32) -> var[0] = var[16] = 1/2, everything else stays 0 *)
-Example C04_example_mutation :
-  let h' := fst (h_proj_eq_with_var Qc_OF false 1 2 2 4 zero_heap var0) in
+(* the heap model on var = zeros(32) (1 qubit, 2 outcomes, flag False): the repaired code leaves var alone and returns
+   [1/2,0,..; 1/2,0,..]; the code before the repair wrote the same values into var itself (var[0] = var[16] = 1/2) *)
+Example C04_example_heap :
+  let '(h', out) := h_proj_eq_with_var Qc_OF false 1 2 3 2 4 zero_heap var0 in
+  Qc_eq_bool (h' 0 0)%nat (Q2Qc 0) && Qc_eq_bool (h' 0 16)%nat (Q2Qc 0)
+  && Qc_eq_bool (rd Qc_OF h' out 0) (Q2Qc (1 # 2)) && Qc_eq_bool (rd Qc_OF h' out 16) (Q2Qc (1 # 2)) && Qc_eq_bool (rd Qc_OF h' out 1) (Q2Qc 0) = true.
+Proof. vm_compute. reflexivity. Qed.
+Example C04_example_mutation_prefix :
+  let h' := fst (h_proj_eq_with_var_prefix Qc_OF false 1 2 2 4 zero_heap var0) in
   Qc_eq_bool (h' 0 0)%nat (Q2Qc (1 # 2)) && Qc_eq_bool (h' 0 16)%nat (Q2Qc (1 # 2)) && Qc_eq_bool (h' 0 1)%nat (Q2Qc 0)
   && Qc_eq_bool (h' 0 4)%nat (Q2Qc 0) = true.
 Proof. vm_compute. reflexivity. Qed.
